@@ -2,26 +2,35 @@
 import CruxVerif.Lemmas.Refs
 namespace M.Rt
 
-structure TK (w w' : World) : Prop where
+/-- `New` = what is known about every task that a step adds to a spawn queue -/
+structure TKp (New : Task → Prop) (w w' : World) : Prop where
   /-- no command's task slab is touched -/
   tasks : ∀ c, (w'.cmd c).tasks = (w.cmd c).tasks
-  /-- whatever is new in a spawn queue is host-free -/
-  spawn : ∀ c t, t ∈ (w'.cmd c).spawnQ → t ∈ (w.cmd c).spawnQ ∨ hostFreeB t.fut = true
+  /-- whatever is new in a spawn queue satisfies `New` -/
+  spawn : ∀ c t, t ∈ (w'.cmd c).spawnQ → t ∈ (w.cmd c).spawnQ ∨ New t
 
-theorem TK.refl (w : World) : TK w w := ⟨fun _ => rfl, fun _ _ h => Or.inl h⟩
-theorem TK.trans {w1 w2 w3 : World} (h12 : TK w1 w2) (h23 : TK w2 w3) : TK w1 w3 :=
+/-- the instance used for ownership: new spawn-queue members are host-free -/
+abbrev TK := TKp (fun t => hostFreeB t.fut = true)
+
+variable {New : Task → Prop}
+
+theorem TKp.imp {New' : Task → Prop} {w w' : World} (h : TKp New w w') (hi : ∀ t, New t → New' t) : TKp New' w w' :=
+  ⟨h.tasks, fun c t ht => (h.spawn c t ht).imp id (hi t)⟩
+
+theorem TKp.refl (w : World) : TKp New w w := ⟨fun _ => rfl, fun _ _ h => Or.inl h⟩
+theorem TKp.trans {w1 w2 w3 : World} (h12 : TKp New w1 w2) (h23 : TKp New w2 w3) : TKp New w1 w3 :=
   ⟨fun c => (h23.tasks c).trans (h12.tasks c), fun c t h => by
     rcases h23.spawn c t h with h | h
     · exact h12.spawn c t h
     · exact Or.inr h⟩
 
-theorem tk_of_cmds {w w' : World} (hc : w'.cmds = w.cmds) : TK w w' := by
+theorem tk_of_cmds {w w' : World} (hc : w'.cmds = w.cmds) : TKp New w w' := by
   refine ⟨?_, ?_⟩
   · intro c; simp only [World.cmd, hc]
   · intro c t h; left; simpa only [World.cmd, hc] using h
 
 theorem tk_modCmd (w : World) (c : Nat) (f : CmdSt → CmdSt) (hf : ∀ x, (f x).tasks = x.tasks)
-    (hs : ∀ x, (f x).spawnQ = x.spawnQ) : TK w (w.modCmd c f) := by
+    (hs : ∀ x, (f x).spawnQ = x.spawnQ) : TKp New w (w.modCmd c f) := by
   refine ⟨?_, ?_⟩
   · intro c'
     by_cases h : c = c'
@@ -38,8 +47,8 @@ theorem tk_modCmd (w : World) (c : Nat) (f : CmdSt → CmdSt) (hf : ∀ x, (f x)
     · rw [World.cmd_modCmd_other w c c' f h] at ht; exact ht
 
 /-- spawning a host-free task -/
-theorem tk_spawn (w : World) (c : Nat) (t0 : Task) (h0 : hostFreeB t0.fut = true) :
-    TK w (w.modCmd c fun x => { x with spawnQ := x.spawnQ ++ [t0] }) := by
+theorem tk_spawn (w : World) (c : Nat) (t0 : Task) (h0 : New t0) :
+    TKp New w (w.modCmd c fun x => { x with spawnQ := x.spawnQ ++ [t0] }) := by
   refine ⟨?_, ?_⟩
   · intro c'
     by_cases h : c = c'
@@ -62,19 +71,19 @@ theorem tk_spawn (w : World) (c : Nat) (t0 : Task) (h0 : hostFreeB t0.fut = true
         · exact Or.inr h0
     · rw [World.cmd_modCmd_other w c c' _ h] at ht; exact Or.inl ht
 
-theorem tk_sinkEvent (w : World) (s : Sink) (e : Ev) : TK w (w.sinkEvent s e) := by
+theorem tk_sinkEvent (w : World) (s : Sink) (e : Ev) : TKp New w (w.sinkEvent s e) := by
   cases s with
   | cmd c => exact tk_modCmd w c _ (fun _ => rfl) (fun _ => rfl)
   | core => exact tk_of_cmds rfl
 
-theorem tk_sinkEffect (w : World) (s : Sink) (e : Eff) : TK w (w.sinkEffect s e) := by
+theorem tk_sinkEffect (w : World) (s : Sink) (e : Eff) : TKp New w (w.sinkEffect s e) := by
   cases s with
   | cmd c => exact tk_modCmd w c _ (fun _ => rfl) (fun _ => rfl)
   | core => exact tk_of_cmds rfl
 
-theorem tk_woken (W : World) (l : List Nat) : TK W ({ W with woken := l } : World) := tk_of_cmds rfl
+theorem tk_woken (W : World) (l : List Nat) : TKp New W ({ W with woken := l } : World) := tk_of_cmds rfl
 
-theorem tk_wake : ∀ (f : Nat) (wk : Waker) (w : World), TK w (wake f wk w) := by
+theorem tk_wake : ∀ (f : Nat) (wk : Waker) (w : World), TKp New w (wake f wk w) := by
   intro f
   induction f with
   | zero => intro wk w; cases wk <;> exact tk_of_cmds rfl
@@ -87,29 +96,29 @@ theorem tk_wake : ∀ (f : Nat) (wk : Waker) (w : World), TK w (wake f wk w) := 
       simp only
       split
       · split
-        · refine TK.trans (tk_modCmd w cid _ ?_ ?_) (tk_woken _ _) <;> (intro _; rfl)
+        · refine TKp.trans (tk_modCmd w cid _ ?_ ?_) (tk_woken _ _) <;> (intro _; rfl)
         · exact tk_woken _ _
       · rename_i pw _
-        refine TK.trans ?_ (ih pw _)
+        refine TKp.trans ?_ (ih pw _)
         split
-        · refine TK.trans (TK.trans (tk_modCmd w cid _ ?_ ?_) (tk_woken _ _)) (tk_modCmd _ cid _ ?_ ?_) <;> (intro _; rfl)
-        · refine TK.trans (tk_woken _ _) (tk_modCmd _ cid _ ?_ ?_) <;> (intro _; rfl)
+        · refine TKp.trans (TKp.trans (tk_modCmd w cid _ ?_ ?_) (tk_woken _ _)) (tk_modCmd _ cid _ ?_ ?_) <;> (intro _; rfl)
+        · refine TKp.trans (tk_woken _ _) (tk_modCmd _ cid _ ?_ ?_) <;> (intro _; rfl)
 
-theorem tk_World_wake (w : World) (wk : Waker) : TK w (w.wake wk) := tk_wake _ wk w
+theorem tk_World_wake (w : World) (wk : Waker) : TKp New w (w.wake wk) := tk_wake _ wk w
 
-theorem tk_abortCmd (w : World) (c : Nat) : TK w (w.abortCmd c) := by
+theorem tk_abortCmd (w : World) (c : Nat) : TKp New w (w.abortCmd c) := by
   unfold World.abortCmd
   simp only
   split
   · exact tk_of_cmds rfl
-  · refine TK.trans ?_ (tk_World_wake _ _)
-    refine TK.trans (w2 := w.modMeta (w.cmd c).abortFlag fun m => { m with aborted := true }) (tk_of_cmds rfl)
+  · refine TKp.trans ?_ (tk_World_wake _ _)
+    refine TKp.trans (w2 := w.modMeta (w.cmd c).abortFlag fun m => { m with aborted := true }) (tk_of_cmds rfl)
       (tk_modCmd _ c _ ?_ ?_) <;> (intro _; rfl)
 
-theorem tk_dropReceiver (w : World) (l : Nat) : TK w (w.dropReceiver l) := tk_of_cmds rfl
+theorem tk_dropReceiver (w : World) (l : Nat) : TKp New w (w.dropReceiver l) := tk_of_cmds rfl
 
 mutual
-theorem tk_dropBlock (dc : Nat → World → World) : (b : Block) → (w : World) → hostFreeB b = true → TK w (dropBlock dc b w)
+theorem tk_dropBlock (dc : Nat → World → World) : (b : Block) → (w : World) → hostFreeB b = true → TKp New w (dropBlock dc b w)
   | .mk env cur rest, w, h => by
     simp only [hostFreeB, Bool.and_eq_true] at h
     simp only [dropBlock]
@@ -125,11 +134,11 @@ theorem tk_dropBlock (dc : Nat → World → World) : (b : Block) → (w : World
         rw [hg w i hi.1]; exact ih w hi.2
     rw [h2 _ (by intro w i hi; cases i <;> simp_all [hostFreeI]) rest _ h.2]
     exact tk_dropPend dc cur w h.1
-theorem tk_dropPend (dc : Nat → World → World) : (p : Pend) → (w : World) → hostFreeP p = true → TK w (dropPend dc p w)
-  | .idle, w, _ => by simp only [dropPend]; exact TK.refl w
-  | .reqDead, w, _ => by simp only [dropPend]; exact TK.refl w
-  | .await _, w, _ => by simp only [dropPend]; exact TK.refl w
-  | .selfwake _, w, _ => by simp only [dropPend]; exact TK.refl w
+theorem tk_dropPend (dc : Nat → World → World) : (p : Pend) → (w : World) → hostFreeP p = true → TKp New w (dropPend dc p w)
+  | .idle, w, _ => by simp only [dropPend]; exact TKp.refl w
+  | .reqDead, w, _ => by simp only [dropPend]; exact TKp.refl w
+  | .await _, w, _ => by simp only [dropPend]; exact TKp.refl w
+  | .selfwake _, w, _ => by simp only [dropPend]; exact TKp.refl w
   | .req _ l, w, _ => by simp only [dropPend]; exact tk_dropReceiver w l
   | .streamWait _ l _ _ _, w, _ => by simp only [dropPend]; exact tk_dropReceiver w l
   | .streamBody _ l _ _ _ inner, w, h => by
@@ -143,7 +152,7 @@ theorem tk_dropPend (dc : Nat → World → World) : (p : Pend) → (w : World) 
     · exact (tk_dropBlock dc a w h.1).trans (tk_dropBlock dc b _ h.2)
     · exact tk_dropBlock dc a w h.1
     · exact tk_dropBlock dc b w h.2
-    · exact TK.refl w
+    · exact TKp.refl w
   | .select a b, w, h => by
     simp only [hostFreeP, Bool.and_eq_true] at h
     simp only [dropPend]
@@ -151,16 +160,16 @@ theorem tk_dropPend (dc : Nat → World → World) : (p : Pend) → (w : World) 
   | .host _ _, w, h => by simp [hostFreeP] at h
 end
 
-theorem tk_World_dropBlock (w : World) (b : Block) (h : hostFreeB b = true) : TK w (w.dropBlock b) :=
+theorem tk_World_dropBlock (w : World) (b : Block) (h : hostFreeB b = true) : TKp New w (w.dropBlock b) :=
   tk_dropBlock _ b w h
 
 theorem tk_newLeaf_sinkEffect (w : World) (k : Option Waker) (lg : Bool) (s : Sink) (e : Eff) :
-    TK w ((w.newLeaf k lg).2.sinkEffect s e) :=
-  TK.trans (w2 := (w.newLeaf k lg).2) (tk_of_cmds rfl) (tk_sinkEffect _ s e)
+    TKp New w ((w.newLeaf k lg).2.sinkEffect s e) :=
+  TKp.trans (w2 := (w.newLeaf k lg).2) (tk_of_cmds rfl) (tk_sinkEffect _ s e)
 
-theorem tk_newMeta_spawn (W : World) (c : Nat) (t0 : Task) (h0 : hostFreeB t0.fut = true) :
-    TK W (W.newMeta.2.modCmd c fun x => { x with spawnQ := x.spawnQ ++ [t0] }) :=
-  TK.trans (w2 := W.newMeta.2) (tk_of_cmds rfl) (tk_spawn _ c t0 h0)
+theorem tk_newMeta_spawn (W : World) (c : Nat) (t0 : Task) (h0 : New t0) :
+    TKp New W (W.newMeta.2.modCmd c fun x => { x with spawnQ := x.spawnQ ++ [t0] }) :=
+  TKp.trans (w2 := W.newMeta.2) (tk_of_cmds rfl) (tk_spawn _ c t0 h0)
 
 def TGood (pn : Waker → Nat → World → Option (NextRes × World)) (f : Nat) : Prop :=
   ∀ wk sink b w r w', pollBlock pn f wk sink b w = some (r, w') → hostFreeB b = true → TK w w'
@@ -188,7 +197,7 @@ theorem tgood_succ (pn) (f : Nat) (ih : TGood pn f) : TGood pn (f + 1) := by
     | nil =>
       simp only [Option.some.injEq, Prod.mk.injEq] at h
       obtain ⟨_, rfl⟩ := h
-      exact TK.refl w
+      exact TKp.refl w
     | cons i rest' =>
       simp only [hostFreeIs, Bool.and_eq_true] at hfr
       obtain ⟨hfi, hfr'⟩ := hfr
@@ -221,36 +230,37 @@ theorem tgood_succ (pn) (f : Nat) (ih : TGood pn f) : TGood pn (f + 1) := by
           simp only at h
           simp only [hostFreeI] at hfi
           refine ih.via (w1 := _) ?_ (hidle _ _ hfr') h
-          refine TK.trans (tk_newLeaf_sinkEffect w (some wk) false (.cmd c) _) (tk_newMeta_spawn _ c _ ?_)
+          refine TKp.trans (tk_newLeaf_sinkEffect w (some wk) false (.cmd c) _) (tk_newMeta_spawn _ c _ ?_)
           simp [hostFreeB, hostFreeP, hfi]
         | core =>
           simp only at h
           refine ih.via (w1 := _) ?_ (hidle _ _ hfr') h
-          have := tk_newLeaf_sinkEffect w (some wk) true .core ⟨⟨n, env.eval e⟩, .once (w.newLeaf (some wk) true).1⟩
+          have := tk_newLeaf_sinkEffect (New := fun t => hostFreeB t.fut = true) w (some wk) true .core
+            ⟨⟨n, env.eval e⟩, .once (w.newLeaf (some wk) true).1⟩
           exact ⟨fun c' => this.tasks c', fun c' t ht => this.spawn c' t ht⟩
       | await hd =>
         cases hh : env.handle hd with
-        | none => simp only [hh] at h; exact ih.via (TK.refl w) (hidle _ _ hfr') h
-        | some s => simp only [hh] at h; exact ih.via (TK.refl w) (by simp [hostFreeB, hostFreeP, hfr']) h
+        | none => simp only [hh] at h; exact ih.via (TKp.refl w) (hidle _ _ hfr') h
+        | some s => simp only [hh] at h; exact ih.via (TKp.refl w) (by simp [hostFreeB, hostFreeP, hfr']) h
       | abortTask hd =>
         cases hh : env.handle hd with
-        | none => simp only [hh] at h; exact ih.via (TK.refl w) (hidle _ _ hfr') h
+        | none => simp only [hh] at h; exact ih.via (TKp.refl w) (hidle _ _ hfr') h
         | some s =>
           simp only [hh] at h
           refine ih.via (w1 := _) ?_ (hidle _ _ hfr') h
           exact tk_of_cmds rfl
       | join a b =>
         simp only [hostFreeI, Bool.and_eq_true] at hfi
-        exact ih.via (TK.refl w) (by simp [hostFreeB, hostFreeP, hfr', hfi.1, hfi.2]) h
+        exact ih.via (TKp.refl w) (by simp [hostFreeB, hostFreeP, hfr', hfi.1, hfi.2]) h
       | select a b =>
         simp only [hostFreeI, Bool.and_eq_true] at hfi
-        exact ih.via (TK.refl w) (by simp [hostFreeB, hostFreeP, hfr', hfi.1, hfi.2]) h
-      | selfwake k => exact ih.via (TK.refl w) (by simp [hostFreeB, hostFreeP, hfr']) h
+        exact ih.via (TKp.refl w) (by simp [hostFreeB, hostFreeP, hfr', hfi.1, hfi.2]) h
+      | selfwake k => exact ih.via (TKp.refl w) (by simp [hostFreeB, hostFreeP, hfr']) h
       | abortCmd name =>
         simp only at h
         split at h
         · exact ih.via (tk_abortCmd w _) (hidle _ _ hfr') h
-        · exact ih.via (TK.refl w) (hidle _ _ hfr') h
+        · exact ih.via (TKp.refl w) (hidle _ _ hfr') h
       | host c m => simp [hostFreeI] at hfi
   | req x l =>
     simp only at h
@@ -266,7 +276,7 @@ theorem tgood_succ (pn) (f : Nat) (ih : TGood pn f) : TGood pn (f + 1) := by
   | reqDead =>
     simp only [Option.some.injEq, Prod.mk.injEq] at h
     obtain ⟨_, rfl⟩ := h
-    exact TK.refl w
+    exact TKp.refl w
   | streamWait x l count limit body =>
     simp only [hostFreeP] at hfc
     simp only at h
@@ -299,12 +309,12 @@ theorem tgood_succ (pn) (f : Nat) (ih : TGood pn f) : TGood pn (f + 1) := by
   | await s =>
     simp only at h
     split at h
-    · exact ih.via (TK.refl w) (hidle _ _ hfr) h
+    · exact ih.via (TKp.refl w) (hidle _ _ hfr) h
     · split at h
       · simp only [Option.some.injEq, Prod.mk.injEq] at h
         obtain ⟨_, rfl⟩ := h
         exact tk_of_cmds rfl
-      · exact ih.via (TK.refl w) (hidle _ _ hfr) h
+      · exact ih.via (TKp.refl w) (hidle _ _ hfr) h
   | join a b ad bd =>
     simp only [hostFreeP, Bool.and_eq_true] at hfc
     simp only at h
@@ -319,7 +329,7 @@ theorem tgood_succ (pn) (f : Nat) (ih : TGood pn f) : TGood pn (f + 1) := by
           | true =>
             simp only [if_true, Option.some.injEq, Prod.mk.injEq] at hra
             obtain ⟨_, rfl⟩ := hra
-            exact TK.refl w
+            exact TKp.refl w
           | false =>
             simp only [Bool.false_eq_true, if_false] at hra
             exact ih wk sink a w ra w1 hra hfc.1
@@ -368,7 +378,7 @@ theorem tgood_succ (pn) (f : Nat) (ih : TGood pn f) : TGood pn (f + 1) := by
   | selfwake k =>
     simp only at h
     split at h
-    · exact ih.via (TK.refl w) (hidle _ _ hfr) h
+    · exact ih.via (TKp.refl w) (hidle _ _ hfr) h
     · simp only [Option.some.injEq, Prod.mk.injEq] at h
       obtain ⟨_, rfl⟩ := h
       exact tk_World_wake w wk
